@@ -123,4 +123,13 @@ let () =
           | _ -> "ERR" in
         if m = obs then Printf.printf "OK %s\n" id
         else Printf.printf "MISMATCH %s model=%s\n" id m
+      | ["P"; id; a; b; c; obs] ->
+        let (ns, sc, mi) = (str_of_hex a, str_of_hex b, str_of_hex c) in
+        let m = match stpp_decode (stpp_payload (n_of_int 1) ns sc mi) with
+          | Base.Ok ((((d, ns'), sc'), mi'), miss) ->
+            Printf.sprintf "%s/%s/%s/%s/%d" (si d) (hex_of_str ns') (hex_of_str sc') (hex_of_str mi')
+              (16 + L.length ns' + L.length sc' + L.length mi' + 3 - int_of_nat miss)
+          | _ -> "ERR" in
+        if m = obs then Printf.printf "OK %s\n" id
+        else Printf.printf "MISMATCH %s model=%s\n" id m
       | _ -> Printf.printf "BADLINE %s\n" line)
